@@ -5,6 +5,7 @@ import (
 	"fmt"
 	"reflect"
 	"strings"
+	"sync"
 	"testing"
 	"time"
 	"unsafe"
@@ -42,6 +43,23 @@ type badNested struct {
 type badChanList struct {
 	L []chan int
 	Z int32
+}
+
+// structs with state the encoder cannot read
+type badHidden struct {
+	A    int32
+	hits int32
+	B    string
+}
+type badLocked struct {
+	Name string
+	Mu   sync.Mutex
+	Hits int32
+}
+type badHiddenDeep struct {
+	N int32
+	P *badHidden
+	L []badHidden
 }
 
 // exported fields whose names start with a non-ASCII upper-case letter
@@ -98,6 +116,7 @@ var unsupportedKinds = []string{"named uintptr", "named chan", "named func", "na
 	// fails, or (should the library choose a wider form) carries the number - see carriedOrFails
 	"*struct{first field: struct{chan}}", "instance of the 17th class{chan}", "int in [2^31, 2^32)", "[]int{.., in [2^31, 2^32)}", "struct{int in [-2^32, -2^31)}",
 	"anonymous struct{chan}", "*anonymous struct{func}", "[]interface{}{anonymous struct{complex}}",
+	"struct{unexported field}", "*struct{sync.Mutex}", "struct{*struct{unexported field}}", "all-zero struct{chan}",
 	"struct{Évent chan}", "struct{Ωmega func; Ärger complex128}", "struct{time.Time; chan}", "*struct{struct{time.Time; chan}}",
 	"int beyond 32 bits", "negative int beyond 32 bits", "[]int{.., beyond 32 bits, ..}", "map[string]int{beyond 32 bits}", "struct{int beyond 32 bits}"}
 
@@ -201,6 +220,15 @@ func unsupportedValue(kind string) interface{} {
 		}{"s", func() {}}
 	case "[]interface{}{anonymous struct{complex}}":
 		return []interface{}{int32(1), struct{ X complex128 }{complex(1, 2)}}
+	case "struct{unexported field}":
+		// what sits in an unexported field cannot be read, let alone represented
+		return badHidden{A: 1, hits: 3, B: "b"}
+	case "*struct{sync.Mutex}":
+		return &badLocked{Name: "n", Hits: 2}
+	case "struct{*struct{unexported field}}":
+		return &badHiddenDeep{N: 1, P: &badHidden{A: 2, hits: 1}, L: []badHidden{{A: 3}}}
+	case "all-zero struct{chan}":
+		return badChanField{}
 	case "struct{Évent chan}":
 		return &badNonASCIIField{A: 1, Évent: make(chan int), Z: "z"}
 	case "struct{Ωmega func; Ärger complex128}":
